@@ -23,7 +23,7 @@ pub const KF_UNTITLED: &str = "KF-C09-untitled-documents-cannot-be-refreshed";
 const DOCS: [(&str, &str, bool); 4] = [
     ("a.md", "markdown", true),
     ("b.txt", "plaintext", true),
-    ("c.rs", "rust", true),
+    ("sub/c.rs", "rust", true),
     ("untitled:Untitled-1", "plaintext", false),
 ];
 
@@ -63,7 +63,16 @@ pub enum Op {
     Config { idx: u8 },
     /// the user edits the user-dictionary file on disk (then every open document is re-checked)
     EditUserDict { variant: u8 },
+    /// the directory holding document 2 is deleted; the client reports the directory, with or
+    /// without a trailing slash
+    DeleteDir { slash: bool },
+    /// something else in the workspace is deleted whose path is a proper prefix of an open
+    /// document's path without being its parent: `a` next to `a.md`, `sub/c` next to `sub/c.rs`,
+    /// directory `su` next to `sub/`. No document is affected.
+    DeleteOther { which: u8 },
 }
+
+const OTHER_PATHS: &[&str] = &["a", "sub/c", "su", "b.tx", "sub/c.r"];
 
 const DICT_VARIANTS: &[&str] = &["", "frobnix\n", "Frobnix\n", "FROBNIX\nqwertzu\n", "frobnix\nzorblaxy\nwibblet\n", "Wibblet\nzorblaxy", "qwertzu\n"];
 
@@ -76,6 +85,7 @@ fn doc_of(op: &Op) -> Option<usize> {
     match op {
         Op::Open { doc, .. } | Op::Change { doc, .. } | Op::Save { doc } | Op::Close { doc } | Op::Delete { doc }
         | Op::AddUser { doc } | Op::AddFile { doc } | Op::Ignore { doc, .. } => Some(*doc as usize % DOCS.len()),
+        Op::DeleteDir { .. } => Some(2),
         _ => None,
     }
 }
@@ -116,6 +126,9 @@ impl World {
     }
     fn write_disk(&self, i: usize) -> Result<(), LspError> {
         if DOCS[i].2 {
+            if let Some(dir) = self.sb.ws_file(DOCS[i].0).parent() {
+                let _ = std::fs::create_dir_all(dir);
+            }
             std::fs::write(self.sb.ws_file(DOCS[i].0), &self.docs[i].text).map_err(|e| LspError::Protocol(e.to_string()))?;
         }
         Ok(())
@@ -213,7 +226,7 @@ fn normalise(batch: &[Op], w: &World) -> Vec<Op> {
                 Op::Open { .. } => !w.docs[i].open,
                 Op::Change { .. } | Op::Close { .. } | Op::Ignore { .. } => w.docs[i].open,
                 Op::Save { .. } => w.docs[i].open && DOCS[i].2,
-                Op::Delete { .. } => DOCS[i].2,
+                Op::Delete { .. } | Op::DeleteDir { .. } => DOCS[i].2,
                 _ => true,
             };
             if ok {
@@ -329,6 +342,28 @@ fn exec_batch(w: &mut World, batch: &[Op], salt: u64, ctx: &mut CaseCtx) -> Resu
                 w.docs[i].open = false;
                 w.docs[i].ignored.clear();
                 w.s.notify("workspace/didChangeWatchedFiles", json!({"changes": [{"uri": uris[i], "type": 3}]}))?;
+            }
+            Op::DeleteDir { slash } => {
+                let i = 2;
+                let dir = w.sb.ws_file("sub");
+                let _ = std::fs::remove_dir_all(&dir);
+                if w.docs[i].open {
+                    expect_pubs[i] += 1;
+                    immediate_pubs += 1;
+                }
+                w.docs[i].open = false;
+                w.docs[i].ignored.clear();
+                let uri = format!("file://{}{}", dir.display(), if *slash { "/" } else { "" });
+                w.s.notify("workspace/didChangeWatchedFiles", json!({"changes": [{"uri": uri, "type": 3}]}))?;
+            }
+            Op::DeleteOther { which } => {
+                let p = w.sb.ws_file(OTHER_PATHS[*which as usize % OTHER_PATHS.len()]);
+                let uri = format!("file://{}", p.display());
+                w.s.notify("workspace/didChangeWatchedFiles", json!({"changes": [{"uri": uri, "type": 3}]}))?;
+                // nothing to wait for: no document is affected; a wrong publication shows in the
+                // comparison after the batch. A request behind it makes sure it was processed.
+                let id = w.s.request("workspace/executeCommand", json!({"command": "HarperRecordLint", "arguments": ["{\"LintConfigUpdate\":{}}"]}))?;
+                responses.push(id);
             }
             Op::Ignore { doc, .. } => {
                 let i = *doc as usize % DOCS.len();
@@ -598,6 +633,12 @@ pub fn test_history(h: &History, ctx: &mut CaseCtx) -> Result<(), String> {
                 continue;
             }
             closes_racing |= b.len() >= 2 && b.iter().any(|o| matches!(o, Op::Close { .. } | Op::Delete { .. }));
+            if b.iter().any(|o| matches!(o, Op::DeleteOther { .. })) && w.docs.iter().any(|d| d.open) {
+                ctx.class("deletion_of_a_path_that_prefixes_an_open_document");
+            }
+            if b.iter().any(|o| matches!(o, Op::DeleteDir { .. })) && w.docs[2].open {
+                ctx.class("directory_of_an_open_document_deleted");
+            }
             let t0 = std::time::Instant::now();
             let r = exec_batch(&mut w, &b, *salt, ctx);
             if std::env::var("HV_VERBOSE").is_ok() {
@@ -644,6 +685,8 @@ fn op() -> BoxedStrategy<Op> {
         1 => Just(Op::Record),
         2 => any::<u8>().prop_map(|idx| Op::Config { idx }),
         2 => any::<u8>().prop_map(|variant| Op::EditUserDict { variant }),
+        1 => any::<bool>().prop_map(|slash| Op::DeleteDir { slash }),
+        2 => any::<u8>().prop_map(|which| Op::DeleteOther { which }),
     ]
     .boxed()
 }
